@@ -3,6 +3,8 @@
 
     python3 translators/cleaf_to_coq.py verifier [--repo /repo]   -> text of coq/Generated/Leaf_verifier.v on stdout
     python3 translators/cleaf_to_coq.py builder  [--repo /repo]   -> text of coq/Generated/Leaf_builder.v
+    python3 translators/cleaf_to_coq.py ident    [--repo /repo]   -> text of coq/Generated/Leaf_ident.v   (C17)
+    python3 translators/cleaf_to_coq.py refmap   [--repo /repo]   -> text of coq/Generated/Leaf_refmap.v  (C18)
 
 The translation is deliberately dumb and uniform; everything outside the subset below raises LeafError (never a guess).
 
@@ -27,8 +29,19 @@ Semantics of the generated Gallina
     written through `*out = e` becomes an extra argument (the initial content) and an extra result.
   * statements: straight-line code with if / else / early return, `do { ... } while (0)` (the verify / check_result macros
     after preprocessing), declarations, `=`, compound assignment (with clang's computation types) to integer locals and
-    parameters (SSA renaming, `let`), `(void)0`.  No loops, no goto, no switch, no address-of, no calls other than to the
-    read primitives and to previously translated leaves.
+    parameters (SSA renaming, `let`), `(void)0`, `x++` / `++p` as statements.  No goto, no switch, no address-of, no calls
+    other than to the read primitives and to previously translated leaves.
+  * loops: `while (c) body` / `for (init; c; inc) body` without break / continue / return / nested loops become a
+    structurally recursive Fixpoint c_<fn>_loop<k> on an explicit fuel; its arguments are the variables in scope, its
+    result the variables the body assigns (for a byte pointer: its offset); the function gets a first argument
+    `fuel : nat` and returns `option (fres T)`: None = a read outside, Some OutOfFuel = fuel exhausted (excluded by the
+    equivalence theorem for enough fuel), Some (Ret v).
+  * more: plain char is s8; local byte-pointer aliases; null tests on pointers are tests on p_addr; an in/out parameter
+    `T *p` is an extra argument and an extra result; a write-only array parameter written through literal subscripts
+    is one result per cell; a `?:` whose branches read memory is built at the option level (only the chosen branch
+    reads); floating CONSTANT expressions under a cast to an integer are evaluated exactly (binary32 / binary64).
+  * guard mode (c_<fn>_guard : bool): the straight-line prefix of a function up to the first store through a struct
+    member or call through a function pointer; true iff an early `return 0` of that prefix is taken.
 """
 import json, os, re, subprocess, sys
 
@@ -69,9 +82,18 @@ FAMILIES = {
         'functions': ['flatbuffers_type_hash_from_string', 'flatbuffers_type_hash_from_identifier',
                       'flatbuffers_identifier_from_type_hash', 'read_thash_identifier',
                       'flatcc_verify_buffer_header', 'flatcc_verify_buffer_header_with_size',
-                      'flatcc_verify_typed_buffer_header', 'flatcc_verify_typed_buffer_header_with_size'],
+                      'flatcc_verify_typed_buffer_header', 'flatcc_verify_typed_buffer_header_with_size',
+                      'flatbuffers_type_hash_from_name'],
         'enum_prefix': ('flatcc_verify_error_', 'E_'),
         'imports': ['From Flatcc.Generated Require Import Consts.'],
+    },
+    'refmap': {
+        # C18: the pointer hash and the load-factor test of the reference map
+        'src': 'src/runtime/refmap.c',
+        'structs': {},
+        'functions': ['_flatcc_refmap_above_load_factor', '_flatcc_refmap_hash'],
+        'enum_prefix': None,
+        'imports': [],
     },
     'builder': {
         'src': 'src/runtime/builder.c',
@@ -113,6 +135,7 @@ def parse_type_str(q):
     q = re.sub(r'\s+', ' ', q)
     if q in INT_TYPES: return ('int',) + INT_TYPES[q]
     if q == 'void': return ('void',)
+    if q in ('float', 'double'): return ('float', 32 if q == 'float' else 64)
     m = re.match(r'struct (\w+)$', q)
     if m: return ('struct', m.group(1))
     if re.match(r'^\w+$', q) and q in TYPEDEFS:
@@ -162,9 +185,11 @@ class Func:
     ncells = None
 
     def __init__(self, tr, decl, guard=False):
-        """guard=True: translate only the straight-line prefix of the body up to its FIRST if statement and return
-        that statement's condition as a bool (used for the range tests at the head of functions whose remainder is
-        outside the subset); the Gallina name is c_<fn>_guard"""
+        """guard=True: translate the straight-line PREFIX of the body - declarations, assignments to integer locals, `if`s,
+        `(void)0` - up to the first statement that stores through a struct member or calls through a function pointer
+        (the point where the function starts to act), as a bool: true iff one of the early `return 0;` statements of the
+        prefix is taken (several early returns combine in program order).  Anything else in the prefix is an error.
+        The Gallina name is c_<fn>_guard."""
         self.tr, self.decl, self.name = tr, decl, decl['name']
         self.used = set()
         self.tmp = 0
@@ -219,16 +244,12 @@ class Func:
         self.ret_ty = self.tr.ast.resolve_typedefs(rq)
         if self.ret_ty[0] not in ('int', 'void'): self.err(d, 'return type %s not an integer type or void' % rq)
         body = [c for c in d['inner'] if c.get('kind') == 'CompoundStmt'][0]
-        if self.guard:
-            pre = []
-            for st in body.get('inner', []):
-                pre.append(st)
-                if st.get('kind') == 'IfStmt': break
-            else:
-                self.err(d, 'guard translation: the body has no top-level if statement')
-            body = {'kind': 'CompoundStmt', 'inner': pre}
-        self.effect = self.scan_effects(body)
-        if self.guard and self.effect: self.err(d, 'guard translation of a prefix that reads memory')
+        self.effect = False if self.guard else self.scan_effects(body)      # a guard prefix must not read memory (bind raises)
+        self.has_loop = self.has_kind(body, ('WhileStmt', 'ForStmt'))
+        self.loops, self.nloops = [], 0
+        if self.has_loop:
+            if self.guard: self.err(d, 'guard translation of a prefix with a loop')
+            self.effect = True          # result: option (fres T); None = read outside, Some OutOfFuel = fuel exhausted
         env, params, self.outs, self.outarrs = {}, [], [], []
         for p in d['inner']:
             if p.get('kind') != 'ParmVarDecl': continue
@@ -253,22 +274,26 @@ class Func:
                 self.outs.append(p['id'])
             else:
                 self.err(p, 'parameter %s of unsupported type %s' % (p.get('name'), p['type']['qualType']))
+        if self.has_loop:
+            self.fresh('fuel'); params.insert(0, ('fuel', 'nat', 'iteration bound for the loops (not a C parameter)'))
         self.params = params
+        self.param_env = dict(env)
         text = self.stmts(list(body.get('inner', [])), env, 1)
         if self.outarrs and self.ncells is None: self.err(d, 'no return reached')
         nres = (1 if self.ret_ty[0] == 'int' else 0) + len(self.outs) + (self.ncells or 0)
         if nres == 0: self.err(d, 'void function without outputs')
         rty = 'Z' if nres == 1 else '(' + ' * '.join(['Z'] * nres) + ')'
-        if self.effect: rty = 'option ' + rty
+        if self.has_loop: rty = 'fres ' + rty
+        if self.effect: rty = 'option ' + (('(%s)' % rty) if ' ' in rty and not rty.startswith('(') else rty)
         if self.guard:
             if self.outs: self.err(d, 'guard translation of a function with out-parameters')
             rty = 'bool'
         self.rty = rty
         sig = ' '.join('(%s : %s)' % (n, t) for n, t, _ in params)
         cm = '%s %s(%s)%s' % (rq, self.name, ', '.join('%s' % q for _, _, q in params),
-                              ' - condition of the first if statement only' if self.guard else '')
+                              ' - GUARD: true iff an early `return 0` is taken before the first store through the struct / indirect call' if self.guard else '')
         cm = '(* ' + cm.replace('*)', '* )').replace('(*', '( *') + ' *)'
-        return '%s\nDefinition c_%s%s %s : %s :=\n%s.\n' % (cm, self.name, '_guard' if self.guard else '', sig, rty, text)
+        return ''.join(self.loops) + '%s\nDefinition c_%s%s %s : %s :=\n%s.\n' % (cm, self.name, '_guard' if self.guard else '', sig, rty, text)
 
     # ------------------------------------------------------------------ statements
     def ind(self, depth): return '  ' * depth
@@ -286,6 +311,7 @@ class Func:
             if self.ncells not in (None, n): raise LeafError('%s: different numbers of cells written on different paths' % self.name)
             self.ncells = n
         r = parts[0] if len(parts) == 1 else '(' + ', '.join(parts) + ')'
+        if getattr(self, 'has_loop', False): return 'Some (Ret %s)' % self.paren(r)
         return ('Some %s' % self.paren(r)) if self.effect else r
 
     def written_arrays(self, body):
@@ -330,8 +356,34 @@ class Func:
             raise LeafError('%s: control reaches the end of the function without a return' % self.name)
         s, rest = sts[0], sts[1:]
         k = s.get('kind')
+        if k == '__loop_continue__':
+            return s['emit'](env, depth)
+        if self.guard and self.is_guard_stop(s):
+            return self.ind(depth) + 'false'
         if k == 'CompoundStmt':
             return self.stmts(list(s.get('inner', [])) + rest, env, depth)
+        if k in ('WhileStmt', 'ForStmt'):
+            return self.loop(s, rest, env, depth)
+        if k == 'UnaryOperator' and s.get('opcode') in ('++', '--'):
+            # x++ / ++x as a statement (the value is not used)
+            c = s['inner'][0]
+            while c.get('kind') == 'ParenExpr': c = c['inner'][0]
+            if c.get('kind') != 'DeclRefExpr' or c['referencedDecl']['id'] not in env: self.err(s, 'increment of something that is not a variable')
+            did = c['referencedDecl']['id']
+            sign = '+' if s['opcode'] == '++' else '-'
+            env = dict(env)
+            if env[did]['kind'] == 'int':
+                t = env[did]['ty']
+                nm = self.fresh(c['referencedDecl']['name'])
+                e = self.wrap(t, '%s %s 1' % (self.getvar_raw(env, did), sign))
+                env[did] = dict(env[did], val=nm)
+                return self.emit_lets([([], nm, e)], depth, lambda d: self.stmts(rest, env, d))
+            if env[did]['kind'] == 'ptr' and env[did]['ty'][1] in (('int', 8, False), ('int', 8, True)):
+                nm = self.fresh(c['referencedDecl']['name'] + '_off')
+                e = '%s %s 1' % (env[did].get('off') or '0', sign)       # pointer arithmetic is exact
+                env[did] = dict(env[did], off=nm)
+                return self.emit_lets([([], nm, e)], depth, lambda d: self.stmts(rest, env, d))
+            self.err(s, 'increment of an unsupported variable')
         if k == 'NullStmt':
             return self.stmts(rest, env, depth)
         if k == 'DoStmt':
@@ -350,7 +402,11 @@ class Func:
             lines = []
             for v in s.get('inner', []):
                 if v.get('kind') != 'VarDecl': self.err(v, 'declaration of something that is not a variable')
-                if v.get('storageClass'): self.err(v, 'static/extern local')
+                if v.get('storageClass'):
+                    # `static const T x = <constant>;` is an ordinary immutable local
+                    if v.get('storageClass') != 'static' or not re.search(r'\bconst\b', v['type']['qualType']) or \
+                            not [c for c in v.get('inner', []) if isinstance(c, dict) and 'kind' in c]:
+                        self.err(v, 'static/extern local that is not an initialised const')
                 t = parse_type(v['type'])
                 init = [c for c in v.get('inner', []) if isinstance(c, dict) and 'kind' in c]
                 if t[0] == 'ptr' and t[1] in BYTE_ELEMS:
@@ -373,7 +429,14 @@ class Func:
                     env[v['id']] = {'ty': t, 'val': None, 'kind': 'int'}
             return self.emit_lets(lines, depth, lambda d: self.stmts(rest, env, d))
         if k == 'ReturnStmt':
+            if getattr(self, 'in_loop', False): self.err(s, 'return inside a loop body')
             inner = s.get('inner', [])
+            if self.guard:
+                c = inner[0] if inner else {}
+                while c.get('kind') in ('ParenExpr', 'ImplicitCastExpr', 'CStyleCastExpr'): c = c['inner'][0]
+                if c.get('kind') != 'IntegerLiteral' or c.get('value') != '0':
+                    self.err(s, 'guard translation: an early return of something other than the literal 0')
+                return self.ind(depth) + 'true'
             if not inner:
                 if self.ret_ty[0] != 'void': self.err(s, 'return without a value')
                 return self.ind(depth) + self.result(None, env)
@@ -386,9 +449,6 @@ class Func:
             if len(inner) not in (2, 3) or s.get('hasInit') or s.get('hasVar'): self.err(s, 'unsupported if form')
             binds = []
             c = self.cond(inner[0], env, binds, False)
-            if self.guard:
-                if rest or binds: self.err(s, 'guard translation: unexpected statements after the first if')
-                return self.ind(depth) + c
             th = [inner[1]]
             el = [inner[2]] if len(inner) == 3 else []
 
@@ -437,6 +497,128 @@ class Func:
             env[tgt] = dict(env[tgt], val=nm)
             return self.emit_lets([(binds, nm, e)], depth, lambda d: self.stmts(rest, env, d))
         self.err(s, 'unsupported statement')
+
+    # ------------------------------------------------------------------ loops
+    def modified_vars(self, nodes, env):
+        out = []
+
+        def target(n):
+            while n.get('kind') == 'ParenExpr': n = n['inner'][0]
+            if n.get('kind') == 'DeclRefExpr' and n['referencedDecl']['id'] in env:
+                if n['referencedDecl']['id'] not in out: out.append(n['referencedDecl']['id'])
+            elif n.get('kind') in ('UnaryOperator', 'ArraySubscriptExpr', 'MemberExpr'):
+                self.err(n, 'store through a pointer / array / member inside a loop')
+
+        def walk(n):
+            k = n.get('kind')
+            if (k == 'BinaryOperator' and n.get('opcode') == '=') or k == 'CompoundAssignOperator': target(n['inner'][0])
+            if k == 'UnaryOperator' and n.get('opcode') in ('++', '--'): target(n['inner'][0])
+            for c in n.get('inner', []):
+                if isinstance(c, dict): walk(c)
+        for n in nodes: walk(n)
+        return out
+
+    def loop(self, s, rest, env, depth):
+        """`while (c) body` / `for (init; c; inc) body` without break / continue / return / nested loops ->
+        a structurally recursive Fixpoint on an explicit fuel; state = the variables the body assigns"""
+        if getattr(self, 'in_loop', False): self.err(s, 'nested loop')
+        if s['kind'] == 'ForStmt':
+            init, condvar, cond, inc, body = (s['inner'] + [{}] * 5)[:5]
+            if condvar: self.err(s, 'for loop with a condition variable')
+            if not cond: self.err(s, 'for loop without a condition')
+            pre = [init] if init else []
+            if pre: return self.stmts(pre + [{'kind': 'WhileStmt', 'inner': [cond, {'kind': 'CompoundStmt', 'inner': [body] + ([inc] if inc else [])}], 'range': s.get('range', {})}] + rest, env, depth)
+            cond, body = cond, {'kind': 'CompoundStmt', 'inner': [body] + ([inc] if inc else [])}
+        else:
+            cond, body = s['inner']
+        if self.has_kind(body, ('ReturnStmt', 'BreakStmt', 'ContinueStmt', 'GotoStmt', 'WhileStmt', 'ForStmt', 'DoStmt', 'SwitchStmt')) and \
+                self.has_kind(body, ('ReturnStmt', 'BreakStmt', 'ContinueStmt', 'GotoStmt', 'WhileStmt', 'ForStmt', 'SwitchStmt')):
+            self.err(s, 'loop body with return / break / continue / goto / a nested loop')
+        state = self.modified_vars([cond, body], env)
+        for did in state:
+            if env[did]['kind'] not in ('int', 'ptr'): self.err(s, 'loop assigns an out-parameter')
+        self.nloops += 1
+        lname = 'c_%s_loop%d' % (self.name, self.nloops)
+        # parameters of the loop function: every variable in scope that has a value (ints, byte pointers with their offset, structs)
+        saved_used = self.used
+        self.used = set(['fuel', 'fuel_'])
+        lenv, lparams, args = {}, [], []
+        for did, e in env.items():
+            if e['kind'] == 'int':
+                if e['val'] is None:
+                    if did in state: self.err(s, 'loop state variable without a value at loop entry')
+                    continue
+                nm = self.fresh(e.get('name_hint') or self.var_name(did) or 'v')
+                lenv[did] = dict(e, val=nm); lparams.append('(%s : Z)' % nm); args.append((did, 'val'))
+            elif e['kind'] == 'ptr':
+                if e['val'] is None: continue
+                nm = self.fresh(self.var_name(did) or 'p'); no = self.fresh(nm + '_off')
+                lenv[did] = dict(e, val=nm, off=no); lparams.append('(%s : cptr) (%s : Z)' % (nm, no)); args.append((did, 'ptr'))
+            elif e['kind'] == 'struct':
+                nm = self.fresh(self.var_name(did) or 'r')
+                lenv[did] = dict(e, val=nm); lparams.append('(%s : %s)' % (nm, self.tr.records[e['ty'][1][1]]['coq'])); args.append((did, 'val'))
+            # out-parameters and out-arrays are not visible inside a loop
+
+        def argtext(cur):
+            out = []
+            for did, what in args:
+                if what == 'val': out.append(self.paren(cur[did]['val']))
+                else: out += [self.paren(cur[did]['val']), self.paren(cur[did].get('off') or '0')]
+            return ' '.join(out)
+
+        def state_tuple(cur):
+            parts = [cur[did]['val'] if cur[did]['kind'] == 'int' else (cur[did].get('off') or '0') for did in state]
+            return parts[0] if len(parts) == 1 else '(' + ', '.join(parts) + ')' if parts else 'tt'
+
+        self.in_loop = True
+        binds = []
+        c = self.cond(cond, lenv, binds, False)
+        cont = {'kind': '__loop_continue__', 'emit': lambda cur, d: '%s%s fuel_ %s' % (self.ind(d), lname, argtext(cur))}
+        btxt = self.stmts([body, cont], lenv, 3)
+        self.in_loop = False
+        inner = self.with_binds(binds, 2, lambda d: '%sif %s then\n%s\n%selse\n%sSome (Ret %s)' % (
+            self.ind(d), c, btxt, self.ind(d), self.ind(d + 1), self.paren(state_tuple(lenv))))
+        nst = max(1, len(state))
+        sty = 'Z' if nst == 1 and state else ('unit' if not state else '(' + ' * '.join(['Z'] * len(state)) + ')')
+        self.loops.append('(* loop %d of %s: state = (%s); OutOfFuel when [fuel] iterations do not suffice *)\n'
+                          'Fixpoint %s (fuel : nat) %s {struct fuel} : option (fres %s) :=\n  match fuel with\n  | O => Some OutOfFuel\n  | S fuel_ =>\n%s\n  end.\n\n'
+                          % (self.nloops, self.name, ', '.join(self.var_name(d) or '?' for d in state), lname, ' '.join(lparams), sty, inner))
+        self.used = saved_used
+        # the call, and the rest of the function with the state variables renamed
+        env2 = dict(env)
+        pats = []
+        for did in state:
+            nm = self.fresh((self.var_name(did) or 's') + ('_off' if env[did]['kind'] == 'ptr' else ''))
+            pats.append(nm)
+            env2[did] = dict(env[did], val=nm) if env[did]['kind'] == 'int' else dict(env[did], off=nm)
+        pat = pats[0] if len(pats) == 1 else ('(' + ', '.join(pats) + ')' if pats else 'tt')
+        return '%smatch %s fuel %s with None => None | Some OutOfFuel => Some OutOfFuel | Some (Ret %s) =>\n%s\n%send' % (
+            self.ind(depth), lname, argtext(env), pat, self.stmts(rest, env2, depth), self.ind(depth))
+
+    def var_name(self, did):
+        if not hasattr(self, '_names'):
+            self._names = {}
+
+            def walk(n):
+                if n.get('kind') in ('VarDecl', 'ParmVarDecl') and 'id' in n: self._names[n['id']] = coq_ident(n.get('name', 'v'))
+                for c in n.get('inner', []):
+                    if isinstance(c, dict): walk(c)
+            walk(self.decl)
+        return self._names.get(did)
+
+    def is_guard_stop(self, s):
+        """the first statement that acts: a store through a struct member, or a call through a function pointer"""
+        k = s.get('kind')
+        if k == 'CallExpr':
+            c = s['inner'][0]
+            while c.get('kind') in ('ImplicitCastExpr', 'ParenExpr'): c = c['inner'][0]
+            if c.get('kind') != 'DeclRefExpr' or c.get('referencedDecl', {}).get('kind') != 'FunctionDecl': return True
+        if (k == 'BinaryOperator' and s.get('opcode') == '=') or k == 'CompoundAssignOperator' or \
+                (k == 'UnaryOperator' and s.get('opcode') in ('++', '--')):
+            l = s['inner'][0]
+            while l.get('kind') == 'ParenExpr': l = l['inner'][0]
+            if l.get('kind') == 'MemberExpr': return True
+        return any(self.is_guard_stop(c) for c in s.get('inner', []) if isinstance(c, dict))
 
     def emit_lets(self, lines, depth, k):
         """lines: [(binds, name, expr)] -> nested binds/lets then continuation k(depth)"""
@@ -507,6 +689,7 @@ class Func:
         return True
 
     def bind(self, binds, lazy, node, opt_expr, hint):
+        if self.guard: self.err(node, 'guard translation: the prefix reads memory')
         if lazy: self.err(node, 'read / effectful call inside a lazily evaluated operand (&&, ||, ?:)')
         nm = self.fresh(hint)
         binds.append((nm, opt_expr))
@@ -595,6 +778,12 @@ class Func:
                     if t[2] and v >= (1 << (t[1] - 1)): v -= 1 << t[1]
                     return str(v) if v >= 0 else '(%d)' % v
                 return self.wrap(t, e)
+            if ck == 'FloatingToIntegral':
+                f = self.fconst(sub)                      # constant expressions only, evaluated exactly (IEEE binary32/64)
+                v = int(f)                                # C truncates towards zero
+                lo, hi = (-(1 << (t[1] - 1)), (1 << (t[1] - 1)) - 1) if t[2] else (0, (1 << t[1]) - 1)
+                if f != f or not lo <= v <= hi: self.err(n, 'floating constant out of the range of the integer type')
+                return str(v) if v >= 0 else '(%d)' % v
             if ck == 'PointerToIntegral':
                 base, off = self.ptr(sub, env, binds, lazy)
                 return self.wrap(t, 'p_addr %s' % self.paren(base) + ('' if off is None else ' + %s' % self.paren(off)))
@@ -641,6 +830,7 @@ class Func:
                 return self.bind(binds, lazy, n, '%s %s %s' % (READ_PRIMS[cn][0], self.paren(base), self.paren(pos)), 'r')
             if cn not in self.tr.done: self.err(n, 'call of %s, which is not a translated leaf or a read primitive' % cn)
             callee = self.tr.done[cn]
+            if callee.get('loop'): self.err(n, 'call of a leaf that contains a loop')
             if callee['outs']: self.err(n, 'call of a leaf with out-parameters')
             if len(args) != len(callee['params']): self.err(n, 'argument count mismatch')
             av = []
@@ -656,6 +846,45 @@ class Func:
             if callee['effect']: return self.bind(binds, lazy, n, call, 'r')
             return '(' + call + ')'
         self.err(n, 'unsupported expression')
+
+    def fconst(self, n):
+        """value of a floating CONSTANT expression (literals, + - * /, casts between float and double, integer literals),
+        each operation rounded to its own type; anything else is an error"""
+        import struct
+        k = n.get('kind')
+        if k == 'ParenExpr': return self.fconst(n['inner'][0])
+        t = parse_type(n['type'])
+        if t[0] != 'float': self.err(n, 'not a floating constant expression')
+
+        def rnd(x):
+            if t[1] == 64: return x
+            try:
+                return struct.unpack('f', struct.pack('f', x))[0]
+            except OverflowError:
+                self.err(n, 'floating constant overflows')
+        if k == 'FloatingLiteral':
+            d = float(n['value'])
+            x = rnd(d)
+            # clang prints about 9 (17) significant digits, not always correctly rounded: the printed decimal must lie well
+            # within half an ulp of the value we take (relative 2^-25 for binary32), so that it identifies the literal
+            if abs(x - d) > abs(d) * (1.5e-8 if t[1] == 32 else 1e-16):
+                self.err(n, 'floating literal is not identified by its printed value')
+            return x
+        if k == 'BinaryOperator' and n['opcode'] in ('+', '-', '*', '/'):
+            for c in n['inner']:
+                if parse_type(c['type']) != t: self.err(n, 'mixed floating types')
+            a, b = self.fconst(n['inner'][0]), self.fconst(n['inner'][1])
+            if n['opcode'] == '/' and b == 0: self.err(n, 'floating division by zero')
+            # one double operation followed by rounding to binary32 is the correctly rounded binary32 operation
+            return rnd({'+': a + b, '-': a - b, '*': a * b, '/': a / b if b else 0.0}[n['opcode']])
+        if k in ('ImplicitCastExpr', 'CStyleCastExpr') and n.get('castKind') == 'FloatingCast':
+            return rnd(self.fconst(n['inner'][0]))
+        if k in ('ImplicitCastExpr', 'CStyleCastExpr') and n.get('castKind') == 'IntegralToFloating':
+            c = n['inner'][0]
+            while c.get('kind') in ('ParenExpr',): c = c['inner'][0]
+            if c.get('kind') != 'IntegerLiteral': self.err(n, 'not a floating constant expression')
+            return rnd(float(int(c['value'])))
+        self.err(n, 'not a floating constant expression')
 
     def binop(self, n, op, t, a, ta, b, tb, rhs_node):
         if op in ('+', '-', '*', '&', '|', '^', '/', '%'):
@@ -785,6 +1014,10 @@ CPTR_DECL = ('(* a byte pointer: its numeric value and the three read primitives
              'Record cptr := { p_addr : Z; p_rd8 : Z -> option Z; p_rd16 : Z -> option Z; p_rd32 : Z -> option Z }.\n')
 
 
+FRES_DECL = ('(* result of a function with loops: the loops run on an explicit fuel *)\n'
+             'Inductive fres (R : Type) : Type := OutOfFuel | Ret (r : R).\nArguments OutOfFuel {R}.\nArguments Ret {R} r.\n')
+
+
 class Translator:
     def __init__(self, family, repo='/repo', consts_v=None):
         self.fam = FAMILIES[family]
@@ -863,6 +1096,7 @@ class Translator:
                '   See the header of the translator for the subset and the conventions. *)',
                'From Flatcc.Common Require Import Wrap.'] + self.fam['imports'] + ['Local Open Scope Z_scope.', 'Local Open Scope bool_scope.', '']
         out.append(CPTR_DECL)
+        out.append(FRES_DECL)
         for sname, (cn, pf) in self.fam.get('structs', {}).items():
             out.append(self.record(sname, cn, pf))
         for sname, (cn, pf, only) in self.fam.get('struct_fields', {}).items():
@@ -872,13 +1106,14 @@ class Translator:
             if d is None: raise LeafError('function %s not found in %s' % (fn, self.fam['src']))
             f = Func(self, d)
             text = f.translate()
-            self.done[fn] = {'effect': f.effect, 'params': f.params, 'outs': f.outs, 'rty': f.rty}
+            self.done[fn] = {'effect': f.effect, 'params': f.params, 'outs': f.outs, 'rty': f.rty, 'loop': f.has_loop}
             out.append(text)
         for fn in self.fam.get('guards', []):
             d = self.ast.funcs.get(fn)
             if d is None: raise LeafError('function %s not found in %s' % (fn, self.fam['src']))
             out.append(Func(self, d, guard=True).translate())
         text = '\n'.join(out)
+        if 'fres' not in text.replace(FRES_DECL, ''): text = text.replace(FRES_DECL + '\n', '')
         if not re.search(r'\bcptr\b', text.replace(CPTR_DECL, '')):
             text = text.replace(CPTR_DECL, '')
         return text
